@@ -669,7 +669,9 @@ func h265Stream(r *Rand, mtu int) []byte {
 			out = append(out, 0, 0, 1)
 		}
 		n := r.Pick(0, 1, 2, 3, h265UnitSize(r, m+1), h265UnitSize(r, m+1), h265UnitSize(r, m+1))
-		if mtu > 80 && r.Chance(1, 3) {
+		if mtu > 80 && r.Chance(1, 3) && len(out) < 2000 {
+			// one unit around the MTU itself (the Annex-B model recurses once per octet: keep
+			// the whole buffer below ~70 kB)
 			n = mtu + r.Range(-8, 8)
 		}
 		u := h265GenUnit(r, n, r.Chance(3, 4))
@@ -700,6 +702,31 @@ func genH265C08(x *Ctx) {
 		}
 		if triv {
 			c.Trivial()
+		}
+		for _, k := range calls {
+			switch {
+			case k.Input == nil:
+				c.Tag("input=nil")
+			case len(k.Input) == 0:
+				c.Tag("input=empty")
+			}
+			switch {
+			case k.MTU <= 20:
+				c.Tag("mtu<=20")
+			case k.MTU <= 64:
+				c.Tag("mtu 21-64")
+			default:
+				c.Tag("mtu>=1200")
+			}
+		}
+		if len(calls) > 1 {
+			c.Tag("history>1")
+		}
+		if cf[0] {
+			c.Tag("donl")
+		}
+		if cf[1] {
+			c.Tag("skipagg")
 		}
 		observePayHist(&c.O, mk(cf), calls)
 	}
@@ -732,7 +759,19 @@ func genH265C08(x *Ctx) {
 			k := r.Pick(1, 2, 3, r.Range(1, 6))
 			calls := make([]PayCall, k)
 			for j := range calls {
-				mtu := r.Pick(r.Range(0, 20), r.Range(0, 20), r.Range(21, 64), 1200, 1500, 65535)
+				var mtu int
+				switch w := r.Intn(24); {
+				case w < 10:
+					mtu = r.Range(0, 20)
+				case w < 19:
+					mtu = r.Range(21, 64)
+				case w < 21:
+					mtu = 1200
+				case w < 23:
+					mtu = 1500
+				default:
+					mtu = 65535
+				}
 				var in []byte
 				switch r.Intn(12) {
 				case 0:
